@@ -11,4 +11,9 @@ open Strengths.Gen.PyIdioms
 and reads dictionaries by key) -/
 theorem text_array_rw_value_semantic : valueSemantic inv_text_array_rw = true := by decide +kernel
 
+/-- `text_array_rw.py` never aliases an array on purpose: no `np.asarray`, `np.frombuffer`, `.view(…)`, `memoryview` — what a function
+returns is a fresh object (the model's values are immutable; this is the source fact that lets mutation of a returned
+object be ignored) -/
+theorem text_array_rw_no_views : views_text_array_rw = [] := by decide +kernel
+
 end Strengths.PyIdioms
